@@ -76,6 +76,9 @@ type W1 struct {
 	Issuer   *type1.BasicPrivateIssuer
 	KeyID    []byte
 	PubBytes []byte
+	// Client is ONE constructed client object used for every request this world creates (several
+	// requests of one client may be outstanding at a time)
+	Client type1.BasicPrivateClient
 }
 
 func NewW1(keyIdx int) *W1 {
@@ -89,7 +92,7 @@ func NewW1FromBytes(kb []byte) *W1 {
 	if err != nil {
 		panic(err)
 	}
-	return &W1{KeyBytes: kb, Issuer: is, KeyID: is.TokenKeyID(), PubBytes: pb}
+	return &W1{KeyBytes: kb, Issuer: is, KeyID: is.TokenKeyID(), PubBytes: pb, Client: type1.NewBasicPrivateClient()}
 }
 
 // ClientPub decodes the public key the way a client receiving bytes would.
@@ -103,7 +106,7 @@ func (w *W1) ClientPub() *oprf.PublicKey {
 
 // Create makes a request state; blind nil = client randomness.
 func (w *W1) Create(challenge, nonce, blind []byte) (type1.BasicPrivateTokenRequestState, error) {
-	c := type1.NewBasicPrivateClient()
+	c := w.Client
 	var a argCopies
 	defer a.done()
 	if blind != nil {
@@ -152,6 +155,7 @@ type W2 struct {
 	Issuer   *type2.BasicPublicIssuer
 	KeyID    []byte
 	PubBytes []byte
+	Client   type2.BasicPublicClient // one constructed client object for all requests of this world
 }
 
 func NewW2(keyIdx int) *W2 { return NewW2Key(RSAKeys()[keyIdx]) }
@@ -163,7 +167,7 @@ func NewW2Key(k *rsa.PrivateKey) *W2 {
 	if err != nil {
 		panic(err)
 	}
-	return &W2{Key: k, Issuer: is, KeyID: is.TokenKeyID(), PubBytes: pb}
+	return &W2{Key: k, Issuer: is, KeyID: is.TokenKeyID(), PubBytes: pb, Client: type2.NewBasicPublicClient()}
 }
 
 func (w *W2) ClientPub() *rsa.PublicKey {
@@ -175,7 +179,7 @@ func (w *W2) ClientPub() *rsa.PublicKey {
 }
 
 func (w *W2) Create(challenge, nonce, blind, salt []byte) (type2.BasicPublicTokenRequestState, error) {
-	c := type2.NewBasicPublicClient()
+	c := w.Client
 	var a argCopies
 	defer a.done()
 	if blind != nil {
@@ -223,6 +227,7 @@ type W5 struct {
 	Issuer   *type5.BatchedPrivateIssuer
 	KeyID    []byte
 	PubBytes []byte
+	Client   type5.BatchedPrivateClient // one constructed client object for all requests of this world
 }
 
 func NewW5(keyIdx int) *W5 { return NewW5FromBytes(OPRFKeyBytes(oprf.SuiteRistretto255, keyIdx)) }
@@ -233,7 +238,7 @@ func NewW5FromBytes(kb []byte) *W5 {
 	if err != nil {
 		panic(err)
 	}
-	return &W5{KeyBytes: kb, Issuer: is, KeyID: is.TokenKeyID(), PubBytes: pb}
+	return &W5{KeyBytes: kb, Issuer: is, KeyID: is.TokenKeyID(), PubBytes: pb, Client: type5.NewBatchedPrivateClient()}
 }
 
 func (w *W5) ClientPub() *oprf.PublicKey {
@@ -245,7 +250,7 @@ func (w *W5) ClientPub() *oprf.PublicKey {
 }
 
 func (w *W5) Create(challenge []byte, nonces [][]byte, blinds [][]byte) (type5.BatchedPrivateTokenRequestState, error) {
-	c := type5.NewBatchedPrivateClient()
+	c := w.Client
 	var a argCopies
 	defer a.done()
 	cl := func(l [][]byte) [][]byte {
